@@ -423,12 +423,12 @@ Proof.
     { intros pq c x Hin Hlk. apply in_map_iff in Hin. destruct Hin as [[p c'] [E Hin]]. cbn [fst snd] in E.
       injection E as <- <-. rewrite alookup_partialsx, (Hpc p c' Hin) in Hlk.
       destruct (Val p) as [V1 _]. rewrite Hlk in V1. exact V1. }
-    split; auto. rewrite E2, map_map. cbn [fst snd].
+    split; [exact E1|]. refine (eq_trans E2 _). rewrite map_map. cbn [fst snd].
     unfold act1, lsum. rewrite (entries_get o u Hwf), Eg.
     apply tsum_map_ext_in. intros [p c] Hin. cbn [fst snd].
     rewrite alookup_partialsx, (Hpc p c Hin). destruct (Val p) as [_ V2]. now rewrite V2.
   - cbn [scaled flat_map osum fold_left opshaped oget]. split; auto.
-    destruct (alookup Nat.eqb w order1) as [s'|] eqn:Ew; cbn [oget]; [|now rewrite lsum_t0].
+    destruct (alookup Nat.eqb w order1) as [s'|] eqn:Ew; cbn [oget]; [|unfold act1; now rewrite lsum_t0].
     unfold act1. rewrite (entries_get o u Hwf). unfold order1_get.
     destruct (alookup Nat.eqb u (d_order1 S o)) as [ps|] eqn:Eu; [|reflexivity].
     apply (alookup_In Nat.eqb nat_eqb_spec) in Ew. apply (alookup_In Nat.eqb nat_eqb_spec) in Eu.
@@ -453,3 +453,349 @@ Proof.
 Qed.
 
 End Sem2.
+
+(* ================================================================================== *)
+(* Part 2: two derivations; one step of the bookkeeping for variables v1 <= v2          *)
+(* ================================================================================== *)
+Section Exact2.
+Variable S : ScalOps.
+Hypothesis L : ScalLaws S.
+Add Ring Kr3 : (k_ring S L).
+Notation triple := (triple S).
+Notation mat3 := (mat3 S).
+Notation sm := (sm S).
+Notation get := (get S).
+Notation gete := (gete S).
+Local Open Scope Z_scope.
+
+Variables dv1 dv2 : S -> S.
+Hypothesis dv1_add : forall x y, dv1 (x + y)%K = (dv1 x + dv1 y)%K.
+Hypothesis dv1_mul : forall x y, dv1 (x * y)%K = (dv1 x * y + x * dv1 y)%K.
+Hypothesis dv2_add : forall x y, dv2 (x + y)%K = (dv2 x + dv2 y)%K.
+Hypothesis dv2_mul : forall x y, dv2 (x * y)%K = (dv2 x * y + x * dv2 y)%K.
+Notation dT1 := (dT S dv1).
+Notation dT2 := (dT S dv2).
+Notation dM1 := (dM S dv1).
+Notation dM2 := (dM S dv2).
+
+(* second-order chain rule through the declared coefficients:
+     d1 d2 (arrays) = sum_p c2_{(v1,v2),p} dO/dp  +  sum_{p,q} c_{v1,p} c_{v2,q} d2O/dp dq       *)
+Definition coef2_ok (o : dop S) (v1 v2 : var) : Prop :=
+  forall x e : triple,
+    lact S (dM1 (dM2 (lmat S (d_lin S o)))) (dM1 (dM2 (lmat0 S (d_lin S o)))) x e =
+    tadd (ctact S o (Pair v1 v2) x e) (cuact S o (Pair v1 v2) x e).
+
+(* the cross terms (dO/dv1)(d state/dv2) + (dO/dv2)(d state/dv1) are computed by the code when the
+   operator does not depend on v1, v2 at all, or cross derivatives are automatic and the operator
+   takes part in second-order differentiation, or the pair is declared in order2 *)
+Definition cross_ok (o : dop S) (v1 v2 : var) : Prop :=
+  (entries S o v1 = [] /\ entries S o v2 = []) \/
+  (d_order2 S o <> [] /\ d_auto S o = true) \/
+  In (Pair v1 v2) (map fst (d_order2 S o)).
+
+Definition instr_ok2 (v1 v2 : var) (i : dinstr S) : Prop :=
+  match i with
+  | DOp o => if is_shift S (d_lin S o) then d_order2 S o = []
+             else wf1 S o /\ d2arrs_ok S o /\ coef2_ok o v1 v2 /\ cross_ok o v1 v2
+  | DPlain _ => True
+  end.
+
+Definition instr_ok12 (v1 v2 : var) (i : dinstr S) : Prop :=
+  instr_ok S dv1 v1 i /\ instr_ok S dv2 v2 i /\ instr_ok2 v1 v2 i.
+
+Definition inv2 (v1 v2 : var) (n : nat) (ds : dstate S) : Prop :=
+  opshaped S n (alookup pair_eqb (Pair v1 v2) (d_p2 ds)) /\
+  forall k, oget S (alookup pair_eqb (Pair v1 v2) (d_p2 ds)) k = dT1 (dT2 (get (d_main ds) k)).
+
+Definition inv12 (v1 v2 : var) (n : nat) (ds : dstate S) : Prop :=
+  inv S dv1 v1 n ds /\ inv S dv2 v2 n ds /\ inv2 v1 v2 n ds.
+
+(* d1 d2 (A s) = A (d1 d2 s) + (d1 d2 A) s + (d1 A)(d2 s) + (d2 A)(d1 s) *)
+Lemma d12_lact o v1 v2 (x e : triple) :
+  coef_ok S dv1 o v1 -> coef_ok S dv2 o v2 -> coef2_ok o v1 v2 -> dT1 e = t0 -> dT2 e = t0 ->
+  dT1 (dT2 (lact S (lmat S (d_lin S o)) (lmat0 S (d_lin S o)) x e)) =
+  tadd (tadd (tadd (tadd (lact S (lmat S (d_lin S o)) (lmat0 S (d_lin S o)) (dT1 (dT2 x)) t0)
+                         (ctact S o (Pair v1 v2) x e))
+                   (cuact S o (Pair v1 v2) x e))
+             (act1 S o v1 (dT2 x) t0))
+       (act1 S o v2 (dT1 x) t0).
+Proof.
+  intros Hc1 Hc2 Hc12 He1 He2.
+  rewrite (dT_lact S L dv2 dv2_add dv2_mul), He2.
+  rewrite (dT_tadd S dv1 dv1_add).
+  rewrite !(dT_lact S L dv1 dv1_add dv1_mul), He1, (dT_t0 S L dv1 dv1_add).
+  rewrite (Hc12 x e), (Hc2 (dT1 x) t0), (Hc1 (dT2 x) t0).
+  rewrite <- !(act1_eff S L).
+  generalize (lact S (lmat S (d_lin S o)) (lmat0 S (d_lin S o)) (dT1 (dT2 x)) t0) as a.
+  generalize (ctact S o (Pair v1 v2) x e) as b. generalize (cuact S o (Pair v1 v2) x e) as c.
+  generalize (act1 S o v1 (dT2 x) t0) as d. generalize (act1 S o v2 (dT1 x) t0) as f.
+  intros f d c b a. apply (triple_ext S); simpl; ring.
+Qed.
+
+Lemma oadd_sem2 (a b : option sm) n k ta tb :
+  opshaped S n a /\ oget S a k = ta -> opshaped S n b /\ oget S b k = tb ->
+  opshaped S n (oadd S a b) /\ oget S (oadd S a b) k = tadd ta tb.
+Proof.
+  intros [Ha <-] [Hb <-]. destruct (oadd_sem S L a b n k Ha Hb) as [E1 E2]. auto.
+Qed.
+
+Lemma cmp_ge_uniq v1 v2 a b : Pair a b = (v1, v2) -> cmp_ge a b = true -> a = v2 /\ b = v1.
+Proof.
+  unfold cmp_ge. intros HP Hc. apply Nat.leb_le in Hc. rewrite (Pair_ge a b Hc) in HP.
+  injection HP as -> ->. auto.
+Qed.
+Lemma cmp_le_uniq v1 v2 a b : Pair a b = (v1, v2) -> cmp_le a b = true -> a = v1 /\ b = v2.
+Proof.
+  unfold cmp_le. intros HP Hc. apply Nat.leb_le in Hc. rewrite (Pair_le a b Hc) in HP.
+  injection HP as -> ->. auto.
+Qed.
+
+Lemma step2_nonshift v1 v2 n o ds : (v1 <= v2)%nat ->
+  is_shift S (d_lin S o) = false -> darrs_ok S o ->
+  coef_ok S dv1 o v1 -> coef_ok S dv2 o v2 ->
+  wf1 S o -> d2arrs_ok S o -> coef2_ok o v1 v2 -> cross_ok o v1 v2 ->
+  inv S dv1 v1 n ds -> inv S dv2 v2 n ds -> inv2 v1 v2 n ds -> inv2 v1 v2 n (dapply o ds).
+Proof.
+  intros Hle Hl Hd Hc1 Hc2 Hwf Hd2 Hc12 Hx (Hs & He1 & Hp1 & Hv1) (_ & He2 & Hp2 & Hv2) (Hq & Hw).
+  assert (EP : Pair v1 v2 = (v1, v2)) by (apply Pair_le; exact Hle).
+  assert (Main : forall k,
+     opshaped S n (alookup pair_eqb (Pair v1 v2) (d_p2 (dapply o ds))) /\
+     oget S (alookup pair_eqb (Pair v1 v2) (d_p2 (dapply o ds))) k = dT1 (dT2 (get (d_main (dapply o ds)) k))).
+  { intros k. unfold dapply; cbn [d_p2 d_main].
+    rewrite (get_lin S L _ _ n k Hl Hs).
+    rewrite (d12_lact o v1 v2 _ _ Hc1 Hc2 Hc12 (He1 k) (He2 k)).
+    destruct (nonempty (d_p2 ds) || nonempty (d_order2 S o)) eqn:E.
+    - rewrite lookup_order2.
+      assert (X1 : cross_ok1 S o (Pair v1 v2) v1 /\ cross_ok1 S o (Pair v1 v2) v2).
+      { unfold cross_ok1. destruct Hx as [[E1 E2]|[[_ Ha]|Hin]]; auto. }
+      destruct X1 as [X1 X2].
+      repeat apply oadd_sem2.
+      + (* previous second-order partial through the operator *)
+        specialize (Hw k).
+        destruct (alookup pair_eqb (Pair v1 v2) (d_p2 ds)) as [p|]; cbn [omap oget opshaped] in *.
+        * destruct Hq as [Hq1 Hq2]. split.
+          -- split; [now apply lin_shaped|]. intros j. unfold derive0. rewrite gete_lin by auto. apply Hq2.
+          -- unfold derive0. now rewrite (get_lin S L _ _ n k Hl Hq1), Hq2, Hw.
+        * split; auto. now rewrite <- Hw, (lact_t0 S L).
+      + exact (coef_sem S L o (d_main ds) (Pair v1 v2) n k Hd Hs).
+      + exact (cur_sem S L o (d_main ds) (Pair v1 v2) n k Hd2 Hs).
+      + rewrite <- (Hv2 k).
+        apply (cross_sem S L o (d_p1 ds) cmp_ge (Pair v1 v2) v1 v2 n k Hwf Hd); auto.
+        * now rewrite Pair_comm.
+        * unfold cmp_ge. now apply Nat.leb_le.
+        * intros a b HP. rewrite EP in HP. now apply cmp_ge_uniq.
+      + rewrite <- (Hv1 k).
+        apply (cross_sem S L o (d_p1 ds) cmp_le (Pair v1 v2) v2 v1 n k Hwf Hd); auto.
+        * unfold cmp_le. now apply Nat.leb_le.
+        * intros a b HP. rewrite EP in HP. now apply cmp_le_uniq.
+    - (* the operator is skipped by the second-order bookkeeping *)
+      apply orb_false_elim in E. destruct E as [E1 E2].
+      specialize (Hw k).
+      destruct (d_p2 ds); [|discriminate]. cbn [fst alookup opshaped oget] in *. split; auto.
+      rewrite <- Hw. unfold ctact, cuact, sel.
+      destruct (d_order2 S o) eqn:Eo2; [|discriminate]. cbn [flat_map map]. rewrite lsum_nil.
+      unfold cross_ok in Hx. rewrite Eo2 in Hx.
+      destruct Hx as [[A1 A2]|[[Hne _]|Hin]]; [|congruence|destruct Hin].
+      unfold act1. rewrite A1, A2, !lsum_nil. cbn [tsum fold_right].
+      now rewrite (lact_t0 S L), !(tadd_t0 S L). }
+  split; [apply (Main 0)|intros k; apply (Main k)].
+Qed.
+
+(* ---- shifts: no derivative arrays, nothing declared ---- *)
+Lemma flat_map_nil {A B} (l : list A) : flat_map (fun _ : A => @nil B) l = [].
+Proof. induction l; simpl; auto. Qed.
+
+Lemma lookup_order2_inactive o ds P : d_order1 S o = [] -> d_order2 S o = [] ->
+  alookup pair_eqb P (d_p2 (dapply o ds)) = omap (derive0 S o) (alookup pair_eqb P (d_p2 ds)).
+Proof.
+  intros Ho1 Ho2. unfold dapply. cbn [d_p2].
+  destruct (nonempty (d_p2 ds) || nonempty (d_order2 S o)) eqn:E.
+  - rewrite lookup_order2.
+    unfold t_coef, t_cur, t_cross, coeffs2, mkcross, sel. rewrite Ho1, Ho2. cbn [flat_map map].
+    rewrite !flat_map_nil. cbn [as_dict fold_left flat_map scaled osum].
+    now destruct (omap (derive0 S o) (alookup pair_eqb P (d_p2 ds))).
+  - apply orb_false_elim in E. destruct E as [E1 _].
+    destruct (d_p2 ds); [reflexivity|discriminate].
+Qed.
+
+Lemma shift_tracks (dvv : S -> S) d nm (s : sm) (po : option sm) n :
+  dvv k0 = k0 -> shaped S s n -> opshaped S n po -> (forall k, oget S po k = dT S dvv (get s k)) ->
+  opshaped S (shift_n d nm n) (omap (apply_shift d nm) po) /\
+  forall k, oget S (omap (apply_shift d nm) po) k = dT S dvv (get (apply_shift d nm s) k).
+Proof.
+  intros H0 Hs Hp Hv.
+  assert (D0 : dT S dvv t0 = t0) by (unfold dT, t0; cbn [fp fm fz]; now rewrite H0).
+  split.
+  - destruct po as [p|]; cbn [omap opshaped]; auto.
+    destruct Hp as [Hp1 Hp2]. split; [now apply shift_shaped|].
+    intros k. rewrite (gete_shift S d nm _ n k Hp1), (gete_resize S _ n _ k Hp1).
+    destruct (inwin (shift_n d nm n) k); [apply Hp2|reflexivity].
+  - intros k. rewrite (get_shift S d nm _ n k Hs). cbv zeta.
+    destruct po as [p|]; cbn [omap oget opshaped] in *.
+    + destruct Hp as [Hp1 Hp2]. rewrite (get_shift S d nm _ n k Hp1). cbv zeta.
+      assert (R : forall j, get (resize p (shift_n d nm n)) j = dT S dvv (get (resize s (shift_n d nm n)) j)).
+      { intros j. rewrite (get_resize S p n _ j Hp1), (get_resize S s n _ j Hs).
+        destruct (inwin _ j); [apply Hv|now rewrite D0]. }
+      destruct (inwin (shift_n d nm n) k); [|now rewrite D0].
+      rewrite !R. reflexivity.
+    + assert (R : forall j, dT S dvv (get (resize s (shift_n d nm n)) j) = t0).
+      { intros j. rewrite (get_resize S _ n _ j Hs). destruct (inwin _ j); [now rewrite <- Hv|apply D0]. }
+      destruct (inwin (shift_n d nm n) k); [|now rewrite D0].
+      unfold dT in *. cbn [fp fm fz].
+      pose proof (R (k - d)) as R1. pose proof (R (k + d)) as R2. pose proof (R k) as R3.
+      unfold t0 in *. injection R1 as A1 _ _. injection R2 as _ A2 _. injection R3 as _ _ A3.
+      now rewrite A1, A2, A3.
+Qed.
+
+Lemma step2_shift v1 v2 n o ds d nm : d_lin S o = LShift d nm -> d_order1 S o = [] -> d_order2 S o = [] ->
+  shaped S (d_main ds) n -> inv2 v1 v2 n ds -> inv2 v1 v2 (shift_n d nm n) (dapply o ds).
+Proof.
+  intros Hl Ho1 Ho2 Hs (Hq & Hw). unfold inv2.
+  rewrite (lookup_order2_inactive o ds _ Ho1 Ho2).
+  unfold dapply; cbn [d_main]. unfold derive0, apply_lin. rewrite Hl. cbn [lin_op apply].
+  apply (shift_tracks (fun x => dv1 (dv2 x)) d nm (d_main ds) _ n); auto.
+  now rewrite (dv_0 S L dv2 dv2_add), (dv_0 S L dv1 dv1_add).
+Qed.
+
+Theorem order2_step_le v1 v2 n i ds : (v1 <= v2)%nat ->
+  instr_ok12 v1 v2 i -> inv12 v1 v2 n ds -> inv12 v1 v2 (instr_n S i n) (dstep i ds).
+Proof.
+  intros Hle (Hi1 & Hi2 & Hi12) (I1 & I2 & I12).
+  split; [exact (order1_step S L dv1 dv1_add dv1_mul v1 n i ds Hi1 I1)|].
+  split; [exact (order1_step S L dv2 dv2_add dv2_mul v2 n i ds Hi2 I2)|].
+  destruct i as [o|o]; cbn [dstep instr_n].
+  - destruct Hi1 as [Hd Hc1]. destruct Hi2 as [_ Hc2]. cbn [instr_ok2] in Hi12.
+    destruct (d_lin S o) as [a a0|m m0|d nm] eqn:El; cbn [is_shift] in Hc1, Hc2, Hi12.
+    + destruct Hi12 as (Hwf & Hd2 & Hc12 & Hx). apply step2_nonshift; auto. now rewrite El.
+    + destruct Hi12 as (Hwf & Hd2 & Hc12 & Hx). apply step2_nonshift; auto. now rewrite El.
+    + apply (step2_shift v1 v2 n o ds d nm); auto. apply I1.
+  - destruct I1 as (Hs & _). destruct I12 as (Hq & Hw).
+    destruct o as [| | | | |p r|]; try contradiction; [destruct r; [contradiction|]|].
+    + unfold inv2. cbn [d_main d_p2 op_n apply]. split; auto.
+    + exact (conj Hq Hw).
+Qed.
+
+End Exact2.
+
+(* ================================================================================== *)
+(* Part 3: variables in any order (commuting derivations), programs, Hessian probe      *)
+(* ================================================================================== *)
+Section Swap.
+Variable S : ScalOps.
+Variables da db : S -> S.
+Hypothesis Hcomm : forall x, da (db x) = db (da x).
+
+Lemma dT_comm t : dT S da (dT S db t) = dT S db (dT S da t).
+Proof. unfold dT; cbn [fp fm fz]. now rewrite !Hcomm. Qed.
+Lemma dM_comm m : dM S da (dM S db m) = dM S db (dM S da m).
+Proof. unfold dM; cbn [row0 row1 row2]. now rewrite !dT_comm. Qed.
+
+Lemma coef2_ok_swap o v1 v2 : coef2_ok S da db o v1 v2 -> coef2_ok S db da o v2 v1.
+Proof.
+  unfold coef2_ok. intros H x e. rewrite (Pair_comm v2 v1), <- (H x e), !dM_comm. reflexivity.
+Qed.
+Lemma cross_ok_swap o v1 v2 : cross_ok S o v1 v2 -> cross_ok S o v2 v1.
+Proof. unfold cross_ok. rewrite (Pair_comm v2 v1). tauto. Qed.
+
+Lemma instr_ok12_swap v1 v2 i : instr_ok12 S da db v1 v2 i -> instr_ok12 S db da v2 v1 i.
+Proof.
+  intros (H1 & H2 & H12). split; [exact H2|split; [exact H1|]].
+  destruct i as [o|o]; cbn [instr_ok2] in *; auto.
+  destruct (is_shift S (d_lin S o)); auto.
+  destruct H12 as (A & B & C & D).
+  split; [exact A|split; [exact B|split; [now apply coef2_ok_swap|now apply cross_ok_swap]]].
+Qed.
+
+Lemma inv12_swap v1 v2 n ds : inv12 S da db v1 v2 n ds -> inv12 S db da v2 v1 n ds.
+Proof.
+  intros (I1 & I2 & Hq & Hw). split; [exact I2|split; [exact I1|]].
+  unfold inv2. rewrite (Pair_comm v2 v1). split; auto.
+  intros k. rewrite <- dT_comm. apply Hw.
+Qed.
+End Swap.
+
+Section Main2.
+Variable S : ScalOps.
+Hypothesis L : ScalLaws S.
+Variables dv1 dv2 : S -> S.
+Hypothesis dv1_add : forall x y, dv1 (x + y)%K = (dv1 x + dv1 y)%K.
+Hypothesis dv1_mul : forall x y, dv1 (x * y)%K = (dv1 x * y + x * dv1 y)%K.
+Hypothesis dv2_add : forall x y, dv2 (x + y)%K = (dv2 x + dv2 y)%K.
+Hypothesis dv2_mul : forall x y, dv2 (x * y)%K = (dv2 x * y + x * dv2 y)%K.
+Hypothesis dv_comm : forall x, dv1 (dv2 x) = dv2 (dv1 x).
+Notation instr_ok12 := (instr_ok12 S dv1 dv2).
+Notation inv12 := (inv12 S dv1 dv2).
+
+Theorem order2_step v1 v2 n i ds :
+  instr_ok12 v1 v2 i -> inv12 v1 v2 n ds -> inv12 v1 v2 (instr_n S i n) (dstep i ds).
+Proof.
+  intros Hi Hinv. destruct (le_ge_dec v1 v2) as [Hle|Hge].
+  - exact (order2_step_le S L dv1 dv2 dv1_add dv1_mul dv2_add dv2_mul v1 v2 n i ds Hle Hi Hinv).
+  - apply (inv12_swap S dv2 dv1 (fun x => eq_sym (dv_comm x))).
+    apply (order2_step_le S L dv2 dv1 dv2_add dv2_mul dv1_add dv1_mul v2 v1 n i ds Hge).
+    + now apply (instr_ok12_swap S dv1 dv2 dv_comm).
+    + now apply (inv12_swap S dv1 dv2 dv_comm).
+Qed.
+
+(* every program: the second-order partial carried for (v1,v2) IS dv1 (dv2 (simulated state)),
+   together with the two first-order invariants *)
+Theorem order2_run v1 v2 prog n ds :
+  List.Forall (instr_ok12 v1 v2) prog -> inv12 v1 v2 n ds -> inv12 v1 v2 (run_n S prog n) (drun prog ds).
+Proof.
+  revert n ds. induction prog as [|i prog IH]; intros n ds Hok Hinv; simpl; auto.
+  inversion Hok as [|? ? Hi Hrest]; subst.
+  unfold drun in *. simpl. apply IH; auto. now apply order2_step.
+Qed.
+
+Lemma inv12_init v1 v2 pd : dv1 pd = k0 -> dv2 pd = k0 -> inv12 v1 v2 0 (dinit (init pd)).
+Proof.
+  intros H1 H2.
+  pose proof (inv_init S L dv1 dv1_add v1 pd H1) as I1.
+  pose proof (inv_init S L dv2 dv2_add v2 pd H2) as I2.
+  split; [exact I1|split; [exact I2|]].
+  destruct I2 as (_ & _ & _ & Hv). unfold inv2, dinit in *. cbn [d_p2 d_p1 d_main alookup opshaped oget] in *.
+  split; auto. intros k. rewrite <- (Hv k). symmetry. apply (dT_t0 S L dv1 dv1_add).
+Qed.
+
+(* what the Hessian probe reads under the sorted pair *)
+Theorem hessian_entry_exact v1 v2 prog pd :
+  dv1 pd = k0 -> dv2 pd = k0 -> List.Forall (instr_ok12 v1 v2) prog ->
+  match alookup pair_eqb (Pair v1 v2) (d_p2 (drun prog (dinit (init pd)))) with
+  | Some s => f0 S s | None => k0 end
+  = dv1 (dv2 (f0 S (d_main (drun prog (dinit (init pd)))))).
+Proof.
+  intros H1 H2 Hok.
+  destruct (order2_run v1 v2 prog 0 _ Hok (inv12_init v1 v2 pd H1 H2)) as ((Hs & _) & _ & Hq & Hw).
+  set (ds := drun prog (dinit (init pd))) in *. set (n := run_n S prog 0) in *.
+  specialize (Hw 0%Z).
+  assert (C : forall s, shaped S s n -> f0 S s = fp (get S s 0)).
+  { intros s [A1 _]. unfold f0, centre, Views.get. rewrite (getZ_odd t0 _ n 0 A1), A1, half_odd.
+    rewrite Z.add_0_l. now rewrite nthZ_nat. }
+  rewrite (C _ Hs).
+  destruct (alookup pair_eqb (Pair v1 v2) (d_p2 ds)) as [p|]; cbn [oget opshaped] in *.
+  - destruct Hq as [Hq1 _]. rewrite (C _ Hq1), Hw. reflexivity.
+  - unfold dT in Hw. unfold t0 in Hw. now injection Hw as <- _ _.
+Qed.
+
+(* Hessian probe for the variable list [v1; v2]: both mixed entries are dv1 (dv2 signal) *)
+Theorem hessian_exact v1 v2 prog pd :
+  dv1 pd = k0 -> dv2 pd = k0 -> List.Forall (instr_ok12 v1 v2) prog ->
+  nth 1 (nth 0 (hessian (drun prog (dinit (init pd))) [v1; v2]) []) k0
+    = dv1 (dv2 (f0 S (d_main (drun prog (dinit (init pd)))))) /\
+  nth 0 (nth 1 (hessian (drun prog (dinit (init pd))) [v1; v2]) []) k0
+    = dv1 (dv2 (f0 S (d_main (drun prog (dinit (init pd)))))).
+Proof.
+  intros H1 H2 Hok. pose proof (hessian_entry_exact v1 v2 prog pd H1 H2 Hok) as E.
+  unfold hessian. cbn [map nth]. rewrite (Pair_comm v2 v1). auto.
+Qed.
+
+(* a single variable differentiated twice, in the style of jacobian_exact *)
+Theorem hessian_exact_diag v prog pd :
+  dv1 pd = k0 -> dv2 pd = k0 -> List.Forall (instr_ok12 v v) prog ->
+  hessian (drun prog (dinit (init pd))) [v] = [[dv1 (dv2 (f0 S (d_main (drun prog (dinit (init pd))))))]].
+Proof.
+  intros H1 H2 Hok. pose proof (hessian_entry_exact v v prog pd H1 H2 Hok) as E.
+  unfold hessian. cbn [map]. now rewrite E.
+Qed.
+
+End Main2.
